@@ -270,12 +270,14 @@ class SpeechContainer(HierElement):
         'debatesection': 'debateSection',
         'declarationofvote': 'declarationOfVote',
         'ministerialstatements': 'ministerialStatements',
+        'nationalinterest': 'nationalInterest',
         'noticesofmotion': 'noticesOfMotion',
         'oralstatements': 'oralStatements',
         'personalstatements': 'personalStatements',
         'pointoforder': 'pointOfOrder',
         'proceduralmotions': 'proceduralMotions',
         'rollcall': 'rollCall',
+        'speechgroup': 'speechGroup',
         'writtenstatements': 'writtenStatements',
     }
 
